@@ -437,18 +437,49 @@ func opThreadLast(env *LEnv, args *LVal) *LVal {
 		return env.Terminal(val)
 	}
 	for i, expr := range exprs {
+		stepenv, arg := env, val
+		if i > 0 {
+			stepenv, arg = threadedValue(env, val)
+		}
 		cells := make([]*LVal, 0, len(expr.Cells)+1)
 		cells = append(cells, expr.Cells...)
-		cells = append(cells, val)
+		cells = append(cells, arg)
 		if i == len(exprs)-1 {
-			return env.Terminal(SExpr(cells))
+			return stepenv.Terminal(SExpr(cells))
 		}
-		val = env.Eval(SExpr(cells))
+		val = stepenv.Eval(SExpr(cells))
 		if val.Type == LError {
 			return val
 		}
 	}
 	return val
+}
+
+// threadedValueSymbol names the binding that carries the value of one
+// thread-first / thread-last step into the next step's form.  The reader
+// cannot produce the name, so no program symbol collides with it.
+const threadedValueSymbol = "\x00threaded-value"
+
+// threadedValue returns the environment and the argument form that pass val,
+// the VALUE of the previous step, to the next step of thread-first /
+// thread-last.  The step is evaluated as a form, so a value placed in it is
+// evaluated again: that is harmless for a value that evaluates to itself, but
+// a symbol or an unquoted list taken out of a quoted list would be looked up
+// or called -- (thread-first '((+ 1 2) b) (car) (list)) gave '(3) where
+// (list (car '((+ 1 2) b))) gives '((+ 1 2)).  Such a value is bound in a
+// scope of its own and the step refers to the binding.
+func threadedValue(env *LEnv, val *LVal) (*LEnv, *LVal) {
+	if val.quoted {
+		return env, val
+	}
+	switch val.Type {
+	case LSymbol, LSExpr, LQuote:
+		stepenv := NewEnv(env)
+		sym := Symbol(threadedValueSymbol)
+		stepenv.Put(sym, val)
+		return stepenv, sym
+	}
+	return env, val
 }
 
 func opThreadFirst(env *LEnv, args *LVal) *LVal {
@@ -465,14 +496,18 @@ func opThreadFirst(env *LEnv, args *LVal) *LVal {
 		return env.Terminal(val)
 	}
 	for i, expr := range exprs {
+		stepenv, arg := env, val
+		if i > 0 {
+			stepenv, arg = threadedValue(env, val)
+		}
 		cells := make([]*LVal, 0, len(expr.Cells)+1)
 		cells = append(cells, expr.Cells[0])
-		cells = append(cells, val)
+		cells = append(cells, arg)
 		cells = append(cells, expr.Cells[1:]...)
 		if i == len(exprs)-1 {
-			return env.Terminal(SExpr(cells))
+			return stepenv.Terminal(SExpr(cells))
 		}
-		val = env.Eval(SExpr(cells))
+		val = stepenv.Eval(SExpr(cells))
 		if val.Type == LError {
 			return val
 		}
